@@ -311,9 +311,13 @@ class Compiler:
         :param code: The C code to compile.
         :return: The RzIL representation of it.
         """
-        ast = self.parser.parse(code)
-        result = self.transformer.transform(ast)
-        self.transformer.reset()
+        try:
+            ast = self.parser.parse(code)
+            result = self.transformer.transform(ast)
+        finally:
+            # Also reset after an exception. Otherwise the operands, effects and flags of
+            # the failed statement leak into the next compilation.
+            self.transformer.reset()
         return result
 
     def compile_insn(self, insn_name: str) -> RZILInstruction:
